@@ -226,12 +226,36 @@ def _check_methods_versions(tier):
                     calls.append(ver)
                     return {'ver': ver, 'x': x}
                 return cached(version=ver)(m) if ver is not None else cached()(m)
-            V.m_none, V.m_1, V.m_2 = mk(None), mk('1'), mk('2')
+            V.m_none, V.m_1, V.m_2, V.m_0, V.m_e = mk(None), mk('1'), mk('2'), mk(0), mk('')   # a version label that is falsy is a label all the same
             v = V(_make_cache(cache_kind, None))
-            outs = [v.m_none(5), v.m_1(5), v.m_2(5), v.m_none(5), v.m_1(5), v.m_2(x=5)]
-            res.add('evaluations', 6)
-            if calls != [None, '1', '2'] or [o_['ver'] for o_ in outs] != [None, '1', '2', None, '1', '2']:
+            outs = [v.m_none(5), v.m_1(5), v.m_2(5), v.m_0(5), v.m_e(5), v.m_none(5), v.m_1(5), v.m_2(x=5), v.m_0(x=5), v.m_e(5)]
+            res.add('evaluations', 10)
+            if calls != [None, '1', '2', 0, ''] or [o_['ver'] for o_ in outs] != [None, '1', '2', 0, '', None, '1', '2', 0, '']:
                 res.violations.append(Violation('cached: versions of a method share entries', f'{cache_kind}: executions {calls}, results {outs}', {'kind': 'versions', 'cache': cache_kind}))
+        # a method with a catch-all for keyword arguments: what it catches is part of the binding
+        ex2 = []
+
+        class X:
+            def __init__(self, cache):
+                self.cache = cache
+
+            @cached
+            def load(self, name, sep=',', **options):
+                ex2.append((name, sep, tuple(sorted(options.items()))))
+                return [name, sep, options]
+        xo = X(_make_cache(cache_kind, None))
+        res.add('evaluations', 8)
+        try:
+            r = [xo.load('a', lang='en'), xo.load('a', lang='de'), xo.load('a', lang='en'), xo.load(name='a', lang='en', sep=','), xo.load('a'), xo.load('a', ',', lang='en', strict=True),
+                 xo.load('a', strict=True, lang='en'), xo.load('a', lang='de', only_cache=True)]
+            want = [['a', ',', {'lang': 'en'}], ['a', ',', {'lang': 'de'}], ['a', ',', {'lang': 'en'}], ['a', ',', {'lang': 'en'}], ['a', ',', {}], ['a', ',', {'lang': 'en', 'strict': True}],
+                    ['a', ',', {'lang': 'en', 'strict': True}], ['a', ',', {'lang': 'de'}]]
+            ok = r == want and len(ex2) == 4
+            detail = f'results {r}, executions {ex2}'
+        except Exception as e:  # noqa
+            ok, detail = False, f'{type(e).__name__}: {e}'
+        if not ok:
+            res.violations.append(Violation('cached: keyword arguments caught by **kwargs do not identify the call', f'{cache_kind}: {detail}', {'kind': 'versions', 'cache': cache_kind}))
         # ONE decorator object applied to two methods with different signatures (e.g. `versioned = cached(version='2')`)
         for first in ('scale', 'shift'):
             deco = cached(version='2')
